@@ -145,7 +145,15 @@ func genBag(r *rand.Rand, g *gen.G) []rosgen.Rec {
 		if r.Intn(2) == 0 {
 			fields = append(fields, rosgen.HField{Name: "callerid", Value: []byte("/node")}, rosgen.HField{Name: "latching", Value: []byte("1")})
 		}
-		conns[i] = rosgen.Rec{Kind: "conn", Conn: connIDs[i], Topic: string(fields[0].Value), Fields: fields}
+		topic := string(fields[0].Value)
+		switch r.Intn(4) {
+		case 0: // a renamed topic: the record header names the topic the messages are stored on, the connection header the
+			// topic the publisher used (bags rewritten with a topic mapping)
+			fields[0].Value = []byte("/orig" + topic)
+		case 1: // a bag written through the rosbag API: the connection header has no topic field at all
+			fields = fields[1:]
+		}
+		conns[i] = rosgen.Rec{Kind: "conn", Conn: connIDs[i], Topic: topic, Fields: fields}
 	}
 	var body []rosgen.Rec
 	declared := map[int]bool{}
